@@ -320,6 +320,7 @@ func runADet(r *verifsim.Run) {
 	model := &zz.DetModel{W: c.W, H: c.H, Edge: c.Edge, T: int(m.TempThresh), Delta: int(m.DeltaThresh), Count: m.CountThresh,
 		Gap: m.FrameCompareGap, Warmer: m.WarmerOnly, OneDiff: m.UseOneDiffOnly}
 	nMotion, sinceReset := 0, 0
+	afterReset := false
 	for i := range tr.Ev {
 		e := &tr.Ev[i]
 		if e.Panic != "" {
@@ -330,6 +331,7 @@ func runADet(r *verifsim.Run) {
 		case 'C':
 			model.Reset()
 			sinceReset = 0
+			afterReset = true
 			r.Probe("camera-reset")
 		case 'F':
 			if e.Ord < 0 {
@@ -349,6 +351,9 @@ func runADet(r *verifsim.Run) {
 				}
 				if sinceReset == 1 {
 					where = "first-frame"
+				}
+				if afterReset && where != "steady" {
+					r.Violate("C14", "C14.restart-detection", sig, "frame id %d, %d frames after a camera reset ('clear'): detection %v, but detection restarted from the frames since the reset gives %v (frames are still compared with frames from before the reset)", e.ID, sinceReset, e.Motion, want)
 				}
 				r.Violate("C07", "C07.detect", sig+":"+where, "frame id %d (%d since start/reset): detector reported motion=%v, the threshold specification gives %v (%d counted pixels, count-thresh %d, delta %d, temp-thresh %d, gap %d, warmer=%v, one-diff=%v, edge %d)",
 					e.ID, sinceReset, e.Motion, want, n, m.CountThresh, m.DeltaThresh, m.TempThresh, m.FrameCompareGap, m.WarmerOnly, m.UseOneDiffOnly, c.Edge)
